@@ -10,6 +10,7 @@ EXPLANATION = (
     "(KNOWN FINDING F4, keyed by that call site); (R3) the limit path writes neither the clock nor the dispatched-event counter "
     "(a paused runtime reports the last dispatched event); (R4) after fetching, stop-or-dispatch depends on limit.applies alone; (R5) the put-back's placement rule: an event at the set's current instant goes to the same-instant FIFO (drained first) independent of anything else stored. "
     '(R1 also: the wrappers do not touch the clock or the event counter themselves.) '
+    '(R6, shared with C02.R7) relative scheduling is based on the reported clock, absolute scheduling passes the instant through. '
     "Decides these necessary conditions only; not equivalence over all step schedules.")
 ASSUMPTIONS = ["C11.R1/R2 (limit tables and ordinal) hold"]
 USES_B = True
